@@ -8,7 +8,8 @@ VERIF="$(cd "$(dirname "$0")/.." && pwd)"
 cd "$REPO" || exit 2
 if [ -n "$(git status --porcelain)" ]; then echo "repo not clean"; exit 2; fi
 git apply "$PATCH" || { echo "patch does not apply"; exit 2; }
-trap 'git -C "$REPO" checkout -- . ; git -C "$REPO" clean -fdq -- o2o-impl/tests o2o-tests/tests 2>/dev/null' EXIT
+# (after the revert the engine is rebuilt against the restored tree, so that a later `o2ov x` is not a stale seeded build)
+trap 'git -C "$REPO" checkout -- . ; git -C "$REPO" clean -fdq -- o2o-impl/tests o2o-tests/tests 2>/dev/null; (cd "$VERIF/engine" && cargo build --release --offline -q 2>/dev/null)' EXIT
 echo "== suite with change: $(cargo nextest run --workspace --no-fail-fast --offline 2>&1 | grep -E 'Summary|error:' | tail -1)"
 TIER=quick
 for id in "$@"; do
